@@ -62,3 +62,76 @@ Theorem C07_crc_burst_bytes : forall (payload : list N) (a : nat) (m : list N) (
   verify (xor_bytes (payload ++ trailer payload) (repeat 0%N a ++ m ++ repeat 0%N z)) = false.
 Proof. exact crc_burst_bytes. Qed.
 Print Assumptions C07_crc_burst_bytes.
+
+(* ---- the whole container (Model/Container.v): header | features | types | constant table | constant blob |
+   symbols | instruction stream | dictionary | CRC trailer ---- *)
+From MechV Require Import Model.Container Proofs.ContainerP.
+
+(* Loading the file CompileCtx::compile lays out for ANY well-formed program (any number of features, types,
+   constants, symbols, instructions, dictionary entries; any payload sizes) yields exactly that program:
+   same header, features, type entries, constant entries, blob, symbols, instructions and dictionary. *)
+Theorem C07_codec_roundtrip : forall p : program,
+  wf_program p = true -> fst (load_program (encode_program p)) = Ok p.
+Proof. exact codec_roundtrip. Qed.
+Print Assumptions C07_codec_roundtrip.
+
+(* Re-encoding what the loader decoded from a canonical file (a file the encoder writes for some well-formed
+   program) reproduces the file byte for byte. *)
+Theorem C07_reencode : forall (bs : bytes) (p : program),
+  fst (load_program bs) = Ok p -> (exists q, wf_program q = true /\ bs = encode_program q) -> encode_program p = bs.
+Proof. exact reencode. Qed.
+Print Assumptions C07_reencode.
+
+(* The two encoders agree: ParsedProgram::to_bytes (stored header) = CompileCtx::compile (computed header). *)
+Theorem C07_to_bytes_encode_program : forall p : program, wf_program p = true -> to_bytes p = encode_program p.
+Proof. exact to_bytes_encode_program. Qed.
+Print Assumptions C07_to_bytes_encode_program.
+
+(* non-vacuity: a well-formed program with every section non-empty *)
+Example C07_sample_wf : wf_program (relayout
+    {| p_header := [MAGIC; 1; 773; 0; 2; 0; 0; 0; 0; 0; 0; 0; 0; 0; 0; 0; 0; 0; 0; 0; 0; 0]%N;
+       p_features := [12; 16]%N; p_types := [(12, []); (32, [0; 0; 0; 0; 2; 0; 0; 0])]%N;
+       p_consts := [[0; 1; 8; 0; 0; 0; 8]; [1; 1; 8; 0; 0; 8; 3]]%N; p_blob := [0; 0; 0; 0; 0; 0; 240; 63; 1; 2; 3]%N;
+       p_symbols := [(5, true, 0); (9, false, 1)]%N; p_instrs := [IConstLoad 0 0; IBinOp 77 1 0 0; IVarArg 5 1 [0; 1]]%N;
+       p_dict := [(5, [120]); (9, [195; 169])]%N |}) = true.
+Proof. vm_compute. reflexivity. Qed.
+Print Assumptions C07_sample_wf.
+
+(* ---- constant payloads (Model/ConstCodec.v): ConstElem::write_le / from_le ---- *)
+From Coq Require Import ZArith.
+From MechV Require Import Model.ConstCodec Proofs.ConstCodecP.
+
+(* from_le inverts write_le for every well-formed value of every modelled kind — u8..u128, i8..i128 (two's
+   complement), f32/f64 bit patterns, bool, index, string (u32 length + UTF-8 bytes), r64 (reduced, positive
+   denominator), c64 — and for dense matrices of any shape (rows, cols >= 1) of any of these kinds, through the
+   TypeTag recorded for the constant. *)
+Theorem C07_const_roundtrip : forall v : cval, wf_cval v = true -> decode_tagged (tag_of_kind v) (encode_const v) = DOk v.
+Proof. exact const_roundtrip. Qed.
+Print Assumptions C07_const_roundtrip.
+
+(* ... and through a constant-table entry of a loaded program (decode_const_entries): Inline encoding, in
+   bounds, aligned, type id resolving in the type section to the value's tag. *)
+Theorem C07_const_entry_roundtrip : forall (types : list tentry) (pre post : bytes) (v : cval) (tid align fl rs : N) (tb : bytes),
+  wf_cval v = true ->
+  nth_error types (N.to_nat tid) = Some (tag_of_kind v, tb) ->
+  (align <> 0)%N -> (N.of_nat (length pre) mod align = 0)%N ->
+  (N.of_nat (length pre) + N.of_nat (length (encode_const v)) < 2 ^ 64)%N ->
+  decode_entry types (pre ++ encode_const v ++ post)
+    [tid; 1%N; align; fl; rs; N.of_nat (length pre); N.of_nat (length (encode_const v))] = DOk v.
+Proof. exact const_entry_roundtrip. Qed.
+Print Assumptions C07_const_entry_roundtrip.
+
+Example C07_const_sample :
+  wf_cval (CMatrix KI16 2 2 [VZ (-300)%Z; VZ 7%Z; VZ 32767%Z; VZ (-32768)%Z]) = true /\
+  wf_cval (CScalar KR64 (VP (-3)%Z 4%Z)) = true /\ wf_cval (CScalar KString (VS [104; 195; 169]%N)) = true.
+Proof. vm_compute. repeat split. Qed.
+Print Assumptions C07_const_sample.
+
+(* The whole-container loader is total and never requests a buffer larger than the file (or the fixed header):
+   the CRC buffer, the header, every type payload, the constant table and its entry vector, the blob, the
+   symbol, instruction and dictionary sections and every dictionary name are all bounds-checked first. *)
+From MechV Require Import Proofs.ContainerLedgerP.
+Theorem C07_load_program_ledger_bounded : forall (file : bytes) (n : nat),
+  In n (snd (load_program file)) -> (n <= Nat.max HEADER_SIZE (length file))%nat.
+Proof. exact load_program_ledger_bounded. Qed.
+Print Assumptions C07_load_program_ledger_bounded.
